@@ -192,7 +192,7 @@ def make_machine(which, base_dir):
                   col_pick=st.one_of(st.none(), st.none(), st.lists(st.integers(0, 5), min_size=1, max_size=4)))
             def merge_readers(self, data, mode, row_type, reader_chunk, out_chunk, take, col_pick):
                 self._do("merge_readers", group=data.draw(st.sampled_from(self._groups())), mode=mode, row_type=row_type,
-                         reader_chunk=reader_chunk, out_chunk=out_chunk, take=take if mode == "rows" else None,
+                         reader_chunk=reader_chunk, out_chunk=out_chunk, take=take if mode in ("rows", "chunked") else None,
                          col_pick=col_pick if mode != "merge_readers" else None)
 
             @precondition(lambda self: any(t["kind"] == "run" for t in self.world.tables.values()))
